@@ -233,7 +233,7 @@ def run(tier, seed):
     good = [o for i, o in enumerate(obs) if i not in badset]
     st = b3.selftest_corruption("VerbsRestructureObs", [o for o in good if o["c"]["v"] == "reorder"] + good[:50])
     cov["obs_selftest"] = st
-    if not st["ok"]:
+    if st["ok"] is False:
         raise vlib.Inconclusive("observation self-test failed: %r" % st)
     cov["obs_sensitivity"] = sensitivity(obs, badset)
     nontrivial = {json.dumps(o, sort_keys=True) for o in obs if o["out"] != o["s"] and o["out"]}
